@@ -234,7 +234,7 @@ def stream(r, n_random, thorough=False):
             for kind in ['ascii', 'utf8', 'bad', 'nl']:
                 if kind == 'ascii': d = bytes(r.randrange(32, 127) for _ in range(ln))
                 elif kind == 'utf8': d = utf8_text(r, ln)
-                elif kind == 'nl': d = (b'line\nheight: 7 txid: ' + b'ab' * 32 + b'    data: x\n' * 40)[:ln]
+                elif kind == 'nl': d = (b'line\nheight: 7 txid: ' + b'ab' * 31 + b'    data: x\n' * 40)[:ln]
                 else: d = bytes([r.choice([0x80, 0xc0, 0xc1, 0xf5, 0xff, 0xed])]) * min(ln, 1) + rb(r, max(0, ln - 1)) if ln else b''
                 if kind == 'bad' and ln >= 3 and r.random() < 0.5: d = utf8_text(r, ln - 3) + r.choice([b'\xed\xa0\x80', b'\xf4\x90\x80', b'\xe0\x80\x80', b'\xc0\xaf\x41'])
                 p = push_form(d, form)
